@@ -435,11 +435,126 @@ fn zone(v: i64, t: i64) -> String {
     format!("{}/{}{}", z(v), z(t), if (v - t).abs() <= 1 { "/eq" } else { "" })
 }
 
+/// C11 stream: tuples of credentials with declared common attributes
+fn gen_common(thorough: bool, rng: &mut Rng) -> Result<(), String> {
+    let pool = Pool::load()?;
+    let names: Vec<String> = pool.defs.iter().map(|(n, _)| n.clone()).collect();
+    let n = if thorough { 160 } else { 14 };
+    for k in 0..n {
+        let ncred = 2 + rng.below(if thorough { 3 } else { 2 }) as usize;
+        let same_link = rng.chance(2, 3);
+        let same_age = rng.chance(1, 2);
+        let declare_age = rng.chance(1, 2);
+        let link0 = dec_of_hex(&rng.hex_bits(255));
+        let age0 = int_value(rng).to_string();
+        let mut held = vec![];
+        let mut reqs = vec![];
+        for ci in 0..ncred {
+            let name = rng.pick(&names).clone();
+            let link = if same_link || ci == 0 { link0.clone() } else { dec_of_hex(&rng.hex_bits(255)) };
+            let mut h = hold(&pool, &name, &link, rng)?;
+            // every fixture schema has `age`: re-issue with the chosen value
+            let age = if same_age || ci == 0 { age0.clone() } else { int_value(rng).to_string() };
+            if h.known["age"] != age {
+                h.known.insert("age".into(), age);
+                h.cred = issue(pool.get(&name), &h.known, &h.hidden, "p", None)?;
+            }
+            // `age` must stay unrevealed to be usable as a common attribute
+            let mut r = random_request(&h, rng, true);
+            r.revealed.retain(|a| a != "age");
+            reqs.push(r);
+            held.push(h);
+        }
+        let mut common = vec!["master_secret".to_string()];
+        if declare_age {
+            common.push("age".to_string());
+        }
+        let sc = Scenario { held, reqs, common, nonce: new_nonce().map_err(|e| e.to_string())? };
+        let links_equal = sc.held.iter().all(|h| h.hidden["master_secret"] == sc.held[0].hidden["master_secret"]);
+        let ages_equal = sc.held.iter().all(|h| h.known["age"] == sc.held[0].known["age"]);
+        let should_accept = links_equal && (!declare_age || ages_equal);
+        let (_adds, proof) = prove(&pool, &sc);
+        let proof = match proof {
+            Out::Ok(p) => p,
+            o => return Err(format!("common: honest proof could not be built: {} {}", o.tag(), o.msg())),
+        };
+        let nonce_dec = sc.nonce.to_dec().unwrap_or_default();
+        let class = json!({"ncred": ncred, "links_equal": links_equal, "declare_age": declare_age, "ages_equal": ages_equal});
+        let v = verify(&pool, &sc, &proof, &sc.nonce);
+        let mut oracles = vec![];
+        if should_accept && !matches!(v, Out::Ok(true)) {
+            oracles.push(json!({"name":"honest_proof_verifies","ok":false,"detail":format!("equal common values not accepted: {} {} {}", v.tag(), v.msg(), class)}));
+        }
+        if !should_accept && matches!(v, Out::Ok(true)) {
+            oracles.push(json!({"name":"common_attribute_enforced","ok":false,"detail":format!("proof over credentials with different values of a declared common attribute accepted: {}", class)}));
+        }
+        let mut implv = out_bool_json(&v);
+        implv["oracles"] = json!(oracles);
+        let base = jv(&proof);
+        emit(&verify_case(&format!("common/{}", k), &pool, &sc, &base, &nonce_dec, implv, json!({"alteration":"none","kind": if should_accept {"equal"} else {"different"}})));
+        // adversarial variants on the proof document
+        let attrs: Vec<&str> = sc.common.iter().map(|s| s.as_str()).collect();
+        for a in attrs {
+            // (1) copy sub-proof 0's response into sub-proof 1
+            let mut p1 = base.clone();
+            let m0 = p1.pointer(&format!("/proofs/0/primary_proof/eq_proof/m/{}", a)).cloned();
+            if let Some(m0) = m0 {
+                let differs = p1.pointer(&format!("/proofs/1/primary_proof/eq_proof/m/{}", a)) != Some(&m0);
+                *p1.pointer_mut(&format!("/proofs/1/primary_proof/eq_proof/m/{}", a)).unwrap() = m0;
+                if differs {
+                    let res = match from_jv::<Proof>(&p1) { Ok(p) => verify(&pool, &sc, &p, &sc.nonce), Err(e) => Out::Err(e) };
+                    let mut or = vec![];
+                    if matches!(res, Out::Ok(true)) {
+                        or.push(json!({"name":"common_attribute_enforced","ok":false,"detail":format!("accepted after copying the response for '{}' from sub-proof 0 into sub-proof 1 ({})", a, class)}));
+                    }
+                    let mut iv = out_bool_json(&res);
+                    iv["oracles"] = json!(or);
+                    emit(&verify_case(&format!("common/{}/copy-{}", k, a), &pool, &sc, &p1, &nonce_dec, iv, json!({"alteration":"copied_mhat"})));
+                }
+            }
+            // (2) omit the response in the last sub-proof
+            let mut p2 = base.clone();
+            let last = ncred - 1;
+            if let Some(m) = p2.pointer_mut(&format!("/proofs/{}/primary_proof/eq_proof/m", last)).and_then(|m| m.as_object_mut()) {
+                m.remove(a);
+                let res = match from_jv::<Proof>(&p2) { Ok(p) => verify(&pool, &sc, &p, &sc.nonce), Err(e) => Out::Err(e) };
+                let mut or = vec![];
+                if matches!(res, Out::Ok(true)) {
+                    or.push(json!({"name":"common_attribute_enforced","ok":false,"detail":format!("accepted although sub-proof {} lacks the response for '{}'", last, a)}));
+                }
+                let mut iv = out_bool_json(&res);
+                iv["oracles"] = json!(or);
+                emit(&verify_case(&format!("common/{}/omit-{}", k, a), &pool, &sc, &p2, &nonce_dec, iv, json!({"alteration":"omitted_mhat"})));
+            }
+        }
+        // (3) verifier uses another order of sub-proof requests than the prover
+        if ncred >= 2 {
+            let mut sc2 = Scenario { held: vec![], reqs: sc.reqs.clone(), common: sc.common.clone(), nonce: bn::BigNumber::from_dec(&nonce_dec).map_err(|e| e.to_string())? };
+            let _ = &mut sc2;
+            let mut p3 = base.clone();
+            p3["proofs"].as_array_mut().unwrap().swap(0, 1);
+            let res = match from_jv::<Proof>(&p3) { Ok(p) => verify(&pool, &sc, &p, &sc.nonce), Err(e) => Out::Err(e) };
+            // swapping two sub-proofs is only harmless when the two requests and keys coincide
+            let same = sc.held[0].cd_name == sc.held[1].cd_name && sc.reqs[0].to_json() == sc.reqs[1].to_json();
+            let mut or = vec![];
+            if !same && matches!(res, Out::Ok(true)) {
+                or.push(json!({"name":"altered_proof_rejected","ok":false,"detail":"accepted after swapping sub-proofs 0 and 1 (subproofs swap)"}));
+            }
+            let mut iv = out_bool_json(&res);
+            iv["oracles"] = json!(or);
+            emit(&verify_case(&format!("common/{}/swap", k), &pool, &sc, &p3, &nonce_dec, iv, json!({"alteration":"subproofs swap"})));
+        }
+    }
+    Ok(())
+}
+
 pub fn gen(stream: &str, thorough: bool, rng: &mut Rng) -> Option<Result<(), String>> {
     match stream {
         "pres" => Some(gen_pres(thorough, rng)),
+        "common" => Some(gen_common(thorough, rng)),
         "predgrid" => Some(gen_predgrid(thorough, rng)),
-        "tamper" => Some(crate::tamper::gen_tamper(thorough, rng)),
+        "tamper" => Some(crate::tamper::gen_tamper(thorough, rng, false)),
+        "tamper_ne" => Some(crate::tamper::gen_tamper(thorough, rng, true)),
         _ => None,
     }
 }
